@@ -684,6 +684,16 @@ func (x *Exec) updateField(cur *Value, path []int, v *Value) *Value {
 
 func (x *Exec) evalComposite(e *ast.CompositeLit, st *State) *Value {
 	t := x.typeOf(e)
+	if o, _ := x.eng.override(t); o != nil && len(o.Sorts) == 1 {
+		// abstracted type: only the zero literal is meaningful
+		for _, el := range e.Elts {
+			tv, ok := x.fr().info.Types[el]
+			if !ok || tv.Value == nil || tv.Value.String() != "0" {
+				panic(engErr("non-zero literal of abstracted type %s at %s", t, x.pos(e)))
+			}
+		}
+		return &Value{T: t, Tm: zeroOfSort(o.Sorts[0])}
+	}
 	switch u := types.Unalias(t).Underlying().(type) {
 	case *types.Struct:
 		v := x.zero(t)
